@@ -65,13 +65,16 @@ template <class Mat> bool cmp_dense(Case &c, const std::string &what, const Mat 
     return structural_ok && value_ok;
 }
 
-static Csr<double> from_mask(size_t n, size_t m, uint64_t mask, Rng &r, bool unsorted = false) {
+// pzero: probability that a stored entry holds an explicit zero (a valid CRS matrix may store zeros; the structural
+// definitions of product / sum / transpose count them as entries)
+static Csr<double> from_mask(size_t n, size_t m, uint64_t mask, Rng &r, bool unsorted = false, double pzero = 0) {
     Csr<double> A(n, m);
     for (size_t i = 0; i < n; ++i) { std::vector<ptrdiff_t> cols; for (size_t j = 0; j < m; ++j) if (mask >> (i * m + j) & 1) cols.push_back(j);
         if (unsorted) r.shuffle(cols);
-        for (auto cidx : cols) { int v = (int)r.range(1, 4); A.push(cidx, r.coin() ? v : -v); } A.end_row(); }
+        for (auto cidx : cols) { int v = (int)r.range(1, 4); if (pzero > 0 && r.coin(pzero)) v = 0; A.push(cidx, r.coin() ? v : -v); } A.end_row(); }
     return A;
 }
+static void store_zeros(Csr<double> &A, Rng &r, double p) { for (auto &v : A.val) if (r.coin(p)) v = 0.0; }
 
 static void check_product_pair(Case &c, const Csr<double> &A, const Csr<double> &B, bool exact, bool all_algos) {
     M a = to_amg(A), b = to_amg(B); DenseRef D = ref_product(A, B);
@@ -101,6 +104,8 @@ static void sub_product_exhaustive() {
                 Csr<double> A = from_mask(n, k, ma, r), B = from_mask(k, m, mb, r);
                 check_product_pair(c, A, B, true, true);
                 if (ma && mb) c.nontrivial();
+                // the same pattern pair with explicitly stored zeros among the values (every 4th pair, to bound the cost)
+                if (ma && mb && ((ma * 31 + mb) & 3) == 0) { Csr<double> Az = from_mask(n, k, ma, r, false, 0.35), Bz = from_mask(k, m, mb, r, false, 0.35); check_product_pair(c, Az, Bz, true, true); }
             }
         }
     }
@@ -116,7 +121,8 @@ static void sub_product_random() {
         double dens = r.pick(std::vector<double>{0.02, 0.1, 0.3, 0.7}); bool exact = r.coin(0.4);
         Csr<double> A = exact ? vf::random_int_sparse(n, k, dens, 5, r) : vf::random_real_sparse(n, k, dens, r);
         Csr<double> B = exact ? vf::random_int_sparse(k, m, dens, 5, r) : vf::random_real_sparse(k, m, dens, r);
-        Case c("product_random", idx, J().n("n", n).n("k", k).n("m", m).n("dens", dens).bl("exact", exact).n("threads", omp_get_max_threads()));
+        bool zeros = idx % 3 == 1; if (zeros) { store_zeros(A, r, 0.15); store_zeros(B, r, 0.15); }
+        Case c("product_random", idx, J().n("n", n).n("k", k).n("m", m).n("dens", dens).bl("exact", exact).bl("stored_zeros", zeros).n("threads", omp_get_max_threads()));
         check_product_pair(c, A, B, exact, true);
         if (A.nnz() && B.nnz()) c.nontrivial();
         // unsorted inputs are permitted for the marker algorithm: result duplicate-free and equal as a set
@@ -135,7 +141,8 @@ static void sub_transpose_sum_misc() {
         Rng r(vf::case_seed("misc", idx));
         size_t n = r.range(1, 40), m = r.range(1, 40); double dens = r.pick(std::vector<double>{0.05, 0.2, 0.6});
         Csr<double> A = vf::random_int_sparse(n, m, dens, 6, r), B = vf::random_int_sparse(n, m, dens, 6, r);
-        Case c("misc", idx, J().n("n", n).n("m", m).n("dens", dens));
+        if (idx % 3 == 2) { store_zeros(A, r, 0.2); store_zeros(B, r, 0.2); }
+        Case c("misc", idx, J().n("n", n).n("m", m).n("dens", dens).bl("stored_zeros", idx % 3 == 2));
         M a = to_amg(A), b = to_amg(B);
         // transpose
         { auto T = backend::transpose(a); DenseRef D(m, n); for (size_t i = 0; i < n; ++i) for (auto j = A.ptr[i]; j < A.ptr[i + 1]; ++j) { D.v[A.col[j] * n + i] = A.val[j]; D.s[A.col[j] * n + i] = 1; }
